@@ -1040,6 +1040,9 @@ func CheckSuccessFn(p *Prog, h *RuleH, fn *ssa.Function, r SuccessRule) {
 		if knownNonNil(gf.Mem, val, at) {
 			return // `if err != nil { return err }`: a failure return
 		}
+		if closureCellAllFailures(val, r.SuccessBool, strings.HasPrefix(at.Comment, "rangefunc.resume")) {
+			return // result cell written only by closures (range-over-func bodies) with failure values
+		}
 		nret++
 		for _, d := range r.Derived {
 			if r.Need != nil && !need[d.Name] {
@@ -1313,4 +1316,44 @@ func knownNonNil(mr *MemReach, v ssa.Value, b *ssa.BasicBlock) bool {
 		}
 	}
 	return false
+}
+
+// closureCellAllFailures: v is a load of a local cell that is written only inside
+// closures of the function (the result cell of a `return` inside a range-over-func
+// body) and every value stored there is a failure value.
+func closureCellAllFailures(v ssa.Value, successBool bool, resumeBlock bool) bool {
+	u, ok := v.(*ssa.UnOp)
+	if !ok || u.Op != token.MUL {
+		return false
+	}
+	al, ok := u.X.(*ssa.Alloc)
+	if !ok || al.Referrers() == nil {
+		return false
+	}
+	n := 0
+	for _, ref := range *al.Referrers() {
+		switch x := ref.(type) {
+		case *ssa.Store:
+			if x.Addr == al && !resumeBlock {
+				return false // also written directly: not a pure closure result cell
+			}
+			// in a rangefunc.resume.* block only the stores made by the loop body (closure) reach the load
+		case *ssa.MakeClosure:
+			fn := x.Fn.(*ssa.Function)
+			for i, b := range x.Bindings {
+				if b != al {
+					continue
+				}
+				for _, r2 := range *fn.FreeVars[i].Referrers() {
+					if st, ok := r2.(*ssa.Store); ok && st.Addr == fn.FreeVars[i] {
+						n++
+						if classifySuccess(st.Val, successBool) != triF {
+							return false
+						}
+					}
+				}
+			}
+		}
+	}
+	return n > 0
 }
